@@ -9,6 +9,7 @@ import (
 	"go/types"
 	"os"
 	"runtime"
+	"runtime/debug"
 	"sort"
 	"strings"
 
@@ -76,6 +77,9 @@ func classifyPanic(p any) any {
 		if strings.Contains(msg, "interp.") || strings.Contains(msg, "interface conversion") {
 			// a failed type assertion inside the engine itself: a value
 			// shape the engine does not model on this path.
+			if os.Getenv("SYMGO_DEBUG") != "" {
+				fmt.Fprintf(os.Stderr, "ENGINE-ERROR %s\n%s\n", msg, debug.Stack())
+			}
 			panic(unsupported("engine: " + msg))
 		}
 		return p
